@@ -430,6 +430,9 @@ impl JoinReorder {
 
         // First, extract join conditions from the filter predicate
         self.extract_join_conditions(&filter.predicate, &mut all_conditions);
+        // Conditions past this index come from the ON clauses of the joins
+        // being flattened, not from the filter predicate.
+        let filter_condition_count = all_conditions.len();
 
         // Then collect from the join tree
         let mut extra_join_filters: Vec<Expr> = Vec::new();
@@ -458,6 +461,22 @@ impl JoinReorder {
             self.rebuild_filter_without_join_conditions(&filter.predicate, &used_conditions);
 
         let mut plan = join_result;
+        // An ON condition of a flattened join that did not become a join edge
+        // (its columns resolve to no single relation) is still part of the
+        // query: re-apply it as a filter. `rebuild_filter_without_join_conditions`
+        // only preserves the conjuncts of the FILTER predicate.
+        for (idx, (l, r)) in all_conditions.iter().enumerate() {
+            if idx >= filter_condition_count && !used_conditions.contains(&idx) {
+                plan = LogicalPlan::Filter(crate::planner::FilterNode {
+                    input: Arc::new(plan),
+                    predicate: Expr::BinaryExpr {
+                        left: Box::new(l.clone()),
+                        op: BinaryOp::Eq,
+                        right: Box::new(r.clone()),
+                    },
+                });
+            }
+        }
         // Join-node filter expressions collected during flattening must be
         // re-applied — dropping them turns joins into cross products.
         for f in &extra_join_filters {
@@ -490,6 +509,7 @@ impl JoinReorder {
                 let qualified = format!("{}.{}", rel.name, col);
                 column_to_relation.entry(qualified).or_default().push(idx);
             }
+            Self::map_field_qualifiers(idx, rel, &mut column_to_relation);
         }
 
         // Build join edges from conditions
@@ -1302,6 +1322,7 @@ impl JoinReorder {
                 let qualified = format!("{}.{}", rel.name, col);
                 column_to_relation.entry(qualified).or_default().push(idx);
             }
+            Self::map_field_qualifiers(idx, rel, &mut column_to_relation);
         }
 
         // Step 3: Build join edges from conditions
@@ -1823,6 +1844,29 @@ impl JoinReorder {
                 self.extract_columns_recursive(high, columns);
             }
             _ => {}
+        }
+    }
+
+    /// A relation that is an opaque sub-plan (an outer / semi / anti join kept
+    /// intact, a derived table) exposes columns qualified by the aliases INSIDE
+    /// it (`t1.k1` of `(t1 LEFT JOIN t2)`), not by the synthetic relation name.
+    /// Without these entries a condition such as `t1.k1 = t3.k1` resolves to
+    /// no relation, never becomes a join edge, and the join above the opaque
+    /// sub-plan degenerates into a cross product.
+    fn map_field_qualifiers(
+        idx: usize,
+        rel: &JoinRelation,
+        column_to_relation: &mut HashMap<String, Vec<usize>>,
+    ) {
+        for f in rel.plan.schema().fields() {
+            if let Some(q) = &f.relation {
+                let entry = column_to_relation
+                    .entry(format!("{}.{}", q, f.name))
+                    .or_default();
+                if !entry.contains(&idx) {
+                    entry.push(idx);
+                }
+            }
         }
     }
 
